@@ -10,7 +10,7 @@
  *   resize L C                 tickit_term_set_size (the emulator's window changed)
  *   goto l c | move d r | print <hex> | printn <hex> n | erasech n moveend(0 no,1 yes,-1 maybe) | clear
  *   scroll top left lines cols downward rightward
- *   setpen [bg=N] [rv=0|1] | chpen [bg=N] [rv=0|1]
+ *   setpen [bg=N] [bgrgb=RRGGBB] [rv=0|1] | chpen [bg=N] [bgrgb=RRGGBB] [rv=0|1]
  *   printf <hex> [d]           tickit_term_printf(tt, "%s", text) / (tt, "%s%d", text, d): the formatted-output entry
  *                              point (tickit_term_vprintf underneath), as opposed to print / printn
  *   outbuf N                   tickit_term_set_output_buffer(tt, N) (0 = unbuffered again)
@@ -69,13 +69,19 @@ static int getcap(const char *name)
 static TickitPen *parse_pen(int argc, char **argv)
 {
   TickitPen *pen = tickit_pen_new();
+  long rgb = -1;
   for(int i = 1; i < argc; i++) {
     if(strncmp(argv[i], "bg=", 3) == 0)
       tickit_pen_set_colour_attr(pen, TICKIT_PEN_BG, atoi(argv[i] + 3));
+    else if(strncmp(argv[i], "bgrgb=", 6) == 0 && strlen(argv[i] + 6) == 6)
+      rgb = strtol(argv[i] + 6, NULL, 16);
     else if(strncmp(argv[i], "rv=", 3) == 0)
       tickit_pen_set_bool_attr(pen, TICKIT_PEN_REVERSE, atoi(argv[i] + 3));
     else { tickit_pen_unref(pen); return NULL; }
   }
+  /* the RGB8 secondary value goes on top of the index (the setter ignores it on a pen without one) */
+  if(rgb >= 0)
+    tickit_pen_set_colour_attr_rgb8(pen, TICKIT_PEN_BG, (TickitPenRGB8){ (rgb >> 16) & 0xff, (rgb >> 8) & 0xff, rgb & 0xff });
   return pen;
 }
 
